@@ -29,7 +29,7 @@ ASSUMPTIONS = ["clusters are never locked (the statement's exception)",
                "a held clone is queried only while the function it was cloned from is still the current binding"]
 COMPONENTS = {"real": ["twosigma.memento version computation, hash rules, generation counter, version cache", "CPython exec/compile/linecache"],
               "stub": ["generated user program", "uuid4, clock"]}
-REACH = ["events:rebind_to_unencodable_value", "programs_with_declared_dependencies", "programs_with_mutual_recursion", "events:define_builtin", "queries", "query_points", "via:unregistered", "via:clone", "via:held-clone", "events:redefine", "events:mutate",
+REACH = ["events:failed_definition", "events:rebind_to_unencodable_value", "programs_with_declared_dependencies", "programs_with_mutual_recursion", "events:define_builtin", "queries", "query_points", "via:unregistered", "via:clone", "via:held-clone", "events:redefine", "events:mutate",
          "events:rebind", "events:swap_kind", "queried_with_undefined_callee"]
 
 QVIAS = ["attr", "attr", "qn", "clone:ignore_result", "clone:force_local", "clone:partial", "clone:context", "unregistered"]
@@ -159,6 +159,31 @@ def gen_case(seed):
                            "kind": "rebind-unencodable"})
             events.append({"op": "query", "nodes": [[n["id"], rng.choice(["attr", "qn"])] for n in users], "prog": copy.deepcopy(cur),
                            "defined": sorted(n["id"] for n in cur["nodes"] if ("n", n["id"]) in defined)})
+    if rng.random() < 0.3:
+        # a definition that fails: the cell of a function with a declared dependency is re-run while that dependency is
+        # (momentarily) not bound - the decorator raises, the name keeps its old definition, the program is what it was
+        decl = [(a, cur["nodes"][c["to"]]) for a in cur["nodes"] if a["kind"] == "memento" and ("n", a["id"]) in defined
+                for c in a["calls"] if c["form"] == "declared" and ("n", c["to"]) in defined]
+        if decl:
+            a, b = decl[rng.randrange(len(decl))]
+            events.append({"op": "glitchcell", "module": a["module"], "text": progen.render_unit(cur, ("n", a["id"])),
+                           "hide_module": b["module"], "hide_name": b["name"]})
+            users = [n for n in cur["nodes"] if n["kind"] == "memento" and ("n", n["id"]) in defined]
+            events.append({"op": "query", "nodes": [[n["id"], rng.choice(["attr", "qn"])] for n in rng.sample(users, min(len(users), 3))],
+                           "prog": copy.deepcopy(cur), "defined": sorted(n["id"] for n in cur["nodes"] if ("n", n["id"]) in defined)})
+            gl = [g for g in cur["globals"] if not g.get("src") and a["id"] in progen.global_users(cur, g["id"])]
+            if gl:
+                # ... and afterwards an ordinary event that changes that function's version
+                g = gl[rng.randrange(len(gl))]
+                counter += 1
+                e = {"kind": "global", "gid": g["id"], "value": progen.bump_global(g, counter + 40), "how": "rebind", "n": counter}
+                new, touched = evo.apply_with_discipline(cur, e, counter)
+                for u in progen.cell_order(new, touched):
+                    ev = unit_cell(new, u)
+                    ev["kind"] = "global"
+                    events.append(ev)
+                    defined.add(u)
+                cur = new
     names = [n for n in cur["nodes"] if n["kind"] == "memento"]
     events.append({"op": "query", "nodes": [[n["id"], "attr"] for n in names], "prog": copy.deepcopy(cur),
                    "defined": sorted(n["id"] for n in cur["nodes"])})
@@ -182,6 +207,16 @@ def _apply(case, ev):
         world.load_module(name, ev["text"])
     elif ev["op"] == "setattr":
         setattr(sys.modules[name], ev["name"], copy.deepcopy(ev["value"]))
+    elif ev["op"] == "glitchcell":
+        hm = sys.modules["%s.%s" % (progen.PKG, case["modules"][ev["hide_module"]])]
+        obj = hm.__dict__.pop(ev["hide_name"], None)
+        try:
+            world.load_module(name, ev["text"])
+        except Exception:  # noqa   (the decorator cannot resolve the declared dependency)
+            pass
+        finally:
+            if obj is not None:
+                setattr(hm, ev["hide_name"], obj)
     elif ev["op"] == "mutate":
         live = getattr(sys.modules[name], ev["name"])
         if isinstance(live, list):
@@ -347,6 +382,8 @@ def execute(case):
         for i, ev in enumerate(case["events"]):
             if viol:
                 break
+            if ev["op"] == "glitchcell":
+                bump("events:failed_definition")
             if ev["op"] == "cell" and ev.get("kind"):
                 redefined = True
                 bump("events:redefine")
